@@ -1313,7 +1313,7 @@ func main() {
 
 	// ---- 2. pb structs with every subset of the optional scalars absent
 	for mask := 0; mask < 512; mask++ {
-		x.caseTx(g.pbTx(mask), fmt.Sprintf("subset-%03x", mask), mask%2 == 0 || thorough)
+		x.caseTx(g.pbTx(mask), fmt.Sprintf("subset-%03x", mask), mask%4 == 0 || thorough)
 	}
 	for rep := 0; rep < 6; rep++ {
 		for mask := 0; mask < 16; mask++ {
@@ -1428,6 +1428,25 @@ func main() {
 		b, err := types.MarshalBlockHeader(h)
 		if err == nil && len(b) > 0 {
 			x.wire("UnMarshalBlockHeader", b, "in-memory")
+			// one pass maps an in-memory header to its normal form: nil hash lists become empty, nothing else moves
+			if (h.ProveValue == nil || h.ProveValue.Sign() >= 0) && !negSecOffset(h.PreTime) && !negSecOffset(h.CurTime) {
+				var h1 *types.BlockHeader
+				pan, _ := guard(func() { h1, _ = types.UnMarshalBlockHeader(b) })
+				nh := *h
+				if nh.Transactions == nil {
+					nh.Transactions = []common.Hashes{}
+				}
+				if nh.EvictedTxs == nil {
+					nh.EvictedTxs = []common.Hash{}
+				}
+				res.Count("one-pass:hdr", "o"+cHdr(h), true)
+				if pan || h1 == nil || cHdr(&nh) != cHdr(h1) {
+					res.Violate("C09/one-pass:header", "an in-memory header changes across Marshal/UnMarshal in more than nil -> empty hash lists", map[string]interface{}{"before": cHdr(&nh), "after": cOHdr(h1), "bytes": hexs(b)})
+				} else if pre, _ := preimage(h); len(pre) > 0 && (h.Transactions != nil && h.EvictedTxs != nil) != (h.GenHash() == h1.GenHash()) {
+					// (a header whose time lies outside RFC 3339's years has no JSON form: GenHash is then the hash of nothing)
+					res.Violate("C09/one-pass:header:genhash", "GenHash must change exactly when a nil hash list became empty", map[string]interface{}{"value": cHdr(h), "bytes": hexs(b)})
+				}
+			}
 		} else {
 			res.Count("fixed:hdr:unmarshalable-zone", "m"+cHdr(h), false)
 		}
